@@ -415,6 +415,56 @@ def c25Line (g : Option Graph) (entryRel : String) : String :=
       let items := hits.map fun h => strHex h.trail ++ "=" ++ strHex (selectedText h.selected)
       " ".intercalate (toString hits.length :: items) ++ "\t" ++ entryVerdict g e
 
+
+/-! ### Part 3: the compiler's bookkeeping, abstractly
+
+`RefetchedPathsMap` is a `BTreeMap`: a client field's refetch paths are numbered by their position
+in key order.  Keys are abstracted to natural numbers (their rank in the `Ord` order of all keys).
+
+* the child's reader numbers its refetchable selections by the position of their (untransformed)
+  path in the child's own map: `childIndex`  (`find_imperatively_fetchable_query_index` on the
+  child's `refetch_paths`);
+* the parent's `Resolver` node lists, for the child's paths TRANSFORMED by the argument
+  substitution `f` and then SORTED (`refetched_paths_for_client_scalar_selectable`: `paths.sort()`),
+  their positions in the parent's map: `usedRefetchQueries`  (`get_nested_refetch_query_text`);
+* the runtime composes: `nested'[i] = nested[used[i]]` (`readResolverFieldData`). -/
+namespace Book
+
+def insertKey (x : Nat) : List Nat → List Nat
+  | [] => [x]
+  | y :: rest => if x ≤ y then x :: y :: rest else y :: insertKey x rest
+
+/-- iteration order of a `BTreeMap` / `Vec::sort` -/
+def sortKeys : List Nat → List Nat
+  | [] => []
+  | x :: rest => insertKey x (sortKeys rest)
+
+def indexOf? (x : Nat) : List Nat → Option Nat
+  | [] => none
+  | y :: rest => if x == y then some 0 else (indexOf? x rest).map (· + 1)
+
+/-- `refetchQueryIndex` the child's reader AST holds for its selection with path `σ` -/
+def childIndex (childPaths : List Nat) (σ : Nat) : Option Nat := indexOf? σ (sortKeys childPaths)
+
+/-- `usedRefetchQueries` of the parent's Resolver node -/
+def usedRefetchQueries (parentPaths : List Nat) (f : Nat → Nat) (childPaths : List Nat) : List (Option Nat) :=
+  (sortKeys (childPaths.map f)).map fun k => indexOf? k (sortKeys parentPaths)
+
+/-- the key of the parent's refetch query that the runtime ends up with for the child's selection `σ` -/
+def selectedKey (parentPaths : List Nat) (f : Nat → Nat) (childPaths : List Nat) (σ : Nat) : Option Nat :=
+  match childIndex childPaths σ with
+  | none => none
+  | some i =>
+    match (usedRefetchQueries parentPaths f childPaths)[i]? with
+    | some (some j) => (sortKeys parentPaths)[j]?
+    | _ => none
+
+/-- the transformation keeps the order of the child's keys -/
+def OrderPreserving (f : Nat → Nat) (childPaths : List Nat) : Prop :=
+  ∀ a ∈ childPaths, ∀ b ∈ childPaths, a < b → f a < f b
+
+end Book
+
 /-- debugging aid: every refetchable selection with its verdict -/
 def c25Debug (g : Option Graph) (entryRel : String) : String :=
   match g.bind (fun g => (g.entry? (strOfString entryRel)).map fun e => (g, e)) with
